@@ -103,6 +103,10 @@ func Anchors(w *World) *SimAnchors {
 	}
 	a := &SimAnchors{CfgMap: map[string]string{}}
 	simAnchors = a
+	defer func() {
+		w.MarkBoundary("simulator anchor", a.Ctor, a.ReadFold, a.WriteFold, a.Exec, a.ReportFn, a.Push, a.Pop, a.QLen, a.Spawn, a.RunCycle, a.Run, a.Reset)
+		w.MarkBoundary("opcode helper of the executor", a.Helpers...)
+	}()
 	fail := func(f string, args ...any) { a.Err = append(a.Err, fmt.Sprintf(f, args...)) }
 	sims := implementers(w, "Simulator")
 	if len(sims) != 1 {
